@@ -59,7 +59,7 @@ func (app *App) MarkReplicationRunning(node *mysql.Node, channel string) {
 
 	if replState.cooldownPassed(app.config.ReplicationRepairCooldown) {
 		status, err := node.ReplicaStatusWithTimeout(app.config.DBTimeout, channel)
-		if err != nil {
+		if err != nil || status == nil {
 			return
 		}
 
